@@ -219,6 +219,21 @@ class ParseResult(Contract):
 # -- race ----------------------------------------------------------------------------------
 
 
+def _register(k):
+    """inK.addCallbacks: recorded; an input that has already fired runs the matching callback at once"""
+    def handler(I, o, cb, eb, callbackArgs=(), errbackArgs=(), **kw):
+        c = ctx()
+        c.emit("in%d.addCallbacks" % k, o, (cb, eb), dict(callbackArgs=callbackArgs, errbackArgs=errbackArgs))
+        pre = c.ghost.get("prefired")
+        if pre is not None and pre[0] == k:
+            if pre[1] == "ok":
+                I.call(cb, [c.ghost["won"]] + list(callbackArgs))
+            else:
+                I.call(eb, [c.ghost["fails"][k]] + list(errbackArgs))
+        return o
+    return handler
+
+
 class Race(Contract):
     """race(ds): drive the closures it registers on the inputs."""
     prop = "C04"
@@ -228,8 +243,12 @@ class Race(Contract):
     patch_classes = (Deferred,)
     calls = {"Deferred.callback": callout("fire-callback"), "Deferred.errback": callout("fire-errback"),
              "in0.cancel": lambda I, o: ctx().emit("in0.cancel", o), "in1.cancel": lambda I, o: ctx().emit("in1.cancel", o),
-             "in2.cancel": lambda I, o: ctx().emit("in2.cancel", o)}
-    inputs = dict(n=OneOf(1, 2, 3), scenario=OneOf("first-success", "all-fail", "cancel"), k=Int(lo=0, small=[0, 1, 2]),
+             "in2.cancel": lambda I, o: ctx().emit("in2.cancel", o),
+             "in0.addCallbacks": _register(0), "in1.addCallbacks": _register(1), "in2.addCallbacks": _register(2)}
+    # prefired-*: input k has already fired when race() is called, so its callback runs during registration, before the
+    # later inputs are registered (seeded change C04-2)
+    inputs = dict(n=OneOf(1, 2, 3), scenario=OneOf("first-success", "all-fail", "cancel", "prefired-success", "prefired-fail"),
+                  k=Int(lo=0, small=[0, 1, 2]),
                   j=Int(lo=0, small=[0, 1, 2]), v=Val(small=("won",)), order=OneOf(0, 1, 2, 3, 4, 5))
 
     def requires(self, i):
@@ -241,10 +260,19 @@ class Race(Contract):
         perm = list(itertools.permutations(range(i.n)))[i.order % len(list(itertools.permutations(range(i.n))))]
 
         def drive(call):
+            if i.scenario.startswith("prefired"):
+                ctx().ghost["prefired"] = (i.k, "ok" if i.scenario == "prefired-success" else "fail")
             final = call(defer.race, None, ins)
             regs = [e for e in ctx().trace if e.name.endswith(".addCallbacks")]
             cbs = [(e.args[0], e.args[1], e.kwargs.get("callbackArgs"), e.kwargs.get("errbackArgs")) for e in regs]
-            if i.scenario == "first-success":
+            if i.scenario == "prefired-success":
+                if i.j != i.k:
+                    call(cbs[0][0], None, "late", i.j)
+            elif i.scenario == "prefired-fail":
+                for p in perm:
+                    if p != i.k:
+                        call(cbs[p][1], None, fails[p], cbs[p][3][0])
+            elif i.scenario == "first-success":
                 # input k succeeds first; later input j also succeeds
                 call(cbs[0][0], None, i.v, i.k)
                 call(cbs[0][0], None, "late", i.j)
@@ -255,7 +283,7 @@ class Race(Contract):
                 canc = final._canceller
                 call(canc, None, final)
             return dict(final=final, regs=regs)
-        return dict(drive=drive, ghost=dict(ins=ins, fails=fails, perm=perm))
+        return dict(drive=drive, ghost=dict(ins=ins, fails=fails, perm=perm, won=i.v, prefired=None))
 
     def _registered(S):
         regs = S.result["regs"]
@@ -264,7 +292,7 @@ class Race(Contract):
             for k, e in enumerate(regs))
 
     def _success(S):
-        if S.i.scenario != "first-success":
+        if S.i.scenario not in ("first-success", "prefired-success"):
             return None
         f = fires(S)
         cancels = [e.name for e in S.trace if e.name.endswith(".cancel")]
@@ -278,7 +306,7 @@ class Race(Contract):
         return ok
 
     def _allfail(S):
-        if S.i.scenario != "all-fail":
+        if S.i.scenario not in ("all-fail", "prefired-fail"):
             return None
         f = fires(S)
         if len(f) != 1 or f[0].name != "fire-errback":
@@ -301,7 +329,7 @@ class Race(Contract):
 
     def bounded_inputs(self, tier):
         for n in (1, 2, 3):
-            for sc in ("first-success", "all-fail", "cancel"):
+            for sc in ("first-success", "all-fail", "cancel", "prefired-success", "prefired-fail"):
                 for k in range(n):
                     for j in range(n):
                         for order in range(6):
